@@ -377,7 +377,7 @@ def sample_events(trace_path, n=2, maxlen=1500):
             for i, ln in enumerate(f):
                 if i >= 40:
                     break
-                if '"ev":"op"' in ln[:30] or '"ev":"case"' in ln[:30]:
+                if '"ev":"op"' in ln[:300] or '"ev":"case"' in ln[:300]:
                     s = ln.strip()
                     out.append(json.loads(s) if len(s) <= maxlen else {"truncated_event": s[:maxlen]})
                     if len(out) >= n:
